@@ -198,6 +198,10 @@ pub struct Workload {
     /// packets shorter than 4 bytes cannot carry a unique tag: they all use this mode, so that
     /// identical payloads are interchangeable for the order oracles
     pub tiny_mode: u8,
+    /// probability that a burst is a "parent lead" pattern: one Reliable packet followed by
+    /// 126..130 / 254..258 / 300 small non-reliable packets on the same channel (the datagram
+    /// encodings switch at leads of 128 and 256)
+    pub lead_pattern_p: f64,
 }
 
 impl Workload {
@@ -223,6 +227,7 @@ impl Workload {
             short_ch: r.below(channels as u64) as u8,
             fixed_len: None,
             tiny_mode: r.below(4) as u8,
+            lead_pattern_p: if r.chance(0.3) { 0.15 } else { 0.0 },
         }
     }
 
@@ -243,6 +248,20 @@ impl Workload {
         let mut tag = tag0;
         let mut left = self.packets;
         while left > 0 {
+            if self.lead_pattern_p > 0.0 && self.fixed_len.is_none() && self.max_len >= 64 && r.chance(self.lead_pattern_p) {
+                let t = r.range(from_us, until_us.max(from_us));
+                let ch = r.below(self.channels as u64) as u8;
+                let k = *r.pick(&[126u32, 127, 128, 129, 130, 254, 255, 256, 257, 258, 300]);
+                plan.push(t, 0x4000_0000 + tag, Op::Send { ep, to, ch, mode: MODE_RELIABLE, len: r.range(12, 40) as u32, tag });
+                tag += 1;
+                let other = *r.pick(&[MODE_UNRELIABLE, MODE_PERSISTENT]);
+                for _ in 0..k {
+                    plan.push(t, 0x4000_0000 + tag, Op::Send { ep, to, ch, mode: other, len: r.range(12, 60) as u32, tag });
+                    tag += 1;
+                }
+                left = left.saturating_sub(k as u64 + 1);
+                continue;
+            }
             let burst = r.range(1, self.burst_max).min(left);
             let t = r.range(from_us, until_us.max(from_us));
             let spread = if r.chance(0.5) { 0 } else { r.below(50_000) };
